@@ -6,10 +6,10 @@ SPEC = {'level': 'exploration',
                  'where the announcement sequence can advance); entry into the pool is observed after every ProcessMessages call',
                  'private broadcast: connections are opened by the harness (no Tor/I2P sockets); caps checked on the PrivateBroadcast object (small caps by model, the '
                  'defaults 10,000 / 1,000 by one direct run)'],
- 'stages': [gen('vh_c39', 'c39_getdata', 480, 8000, min_cases_quick=32, max_seconds_quick=240, max_seconds_thorough=1800,
+ 'stages': [gen('vh_c39', 'c39_getdata', 480, 8000, min_cases_quick=150, max_seconds_quick=1800, max_seconds_thorough=1800,
                 floors={'served-pool-tx': 0.15, 'withheld-pool-tx': 0.3, 'block': 0.15, 'served-recent-block': 0.03, 'local-submit': 0.2},
                 rule='pool additions / SendMessages / getdata interleavings; non-trivial = a pool tx served and a pool tx withheld'),
-            gen('vh_c39', 'c39_privbroadcast', 400, 7000, min_cases_quick=32, max_seconds_quick=200, max_seconds_thorough=1500,
+            gen('vh_c39', 'c39_privbroadcast', 400, 7000, min_cases_quick=120, max_seconds_quick=1800, max_seconds_thorough=1500,
                 floors={'private-submit': 0.6, 'pb-full-cycle': 0.1, 'probe-notfound': 0.2, 'pb-conn-up': 0.3},
                 rule='private-broadcast flows; non-trivial = complete private send and a probe answered notfound'),
             gen('vh_c39', 'c39_pb_object', 16000, 300000, min_cases_quick=5000, floors={'queue-full': 0.2, 're-added-after-exhaustion': 0.1, 'picked': 0.5},
